@@ -31,7 +31,7 @@ class Reach(dict):
 
 class SNode:
     __slots__ = ('id', 'kind', 'cn', 'func', 'call', 'callee', 'succ',
-                 'frame', 'cond', 'cls')
+                 'frame', 'cond', 'cls', 'cframe')
 
     def __init__(self, id_, kind, cn, func, frame):
         self.id = id_
@@ -44,6 +44,7 @@ class SNode:
         self.frame = frame
         self.cond = False
         self.cls = None
+        self.cframe = None      # 'enter': the callee's Frame
 
     @property
     def lineno(self):
@@ -275,7 +276,9 @@ class Super:
                     ent.call = call
                     ent.callee = g
                     self._edge(cur, ent.id)
-                    sub = self._expand(g, Frame(g, ent, fc.frame))
+                    cfr = Frame(g, ent, fc.frame)
+                    ent.cframe = cfr
+                    sub = self._expand(g, cfr)
                     self._edge(ent.id, sub.s_in[sub.cfg.entry])
                     ret = self._new('ret', cn, func, fc.frame)
                     ret.call = call
@@ -356,6 +359,20 @@ class Super:
     def _flag_update(self, sn, val):
         """Flag valuation after node sn completed (assignment of a constant
         to a tracked boolean local of sn's frame)."""
+        if sn.kind == 'enter' and sn.cframe is not None and \
+                sn.call is not None and isinstance(sn.callee, Func):
+            # a tracked boolean handed to an inlined helper keeps its value
+            # under the parameter's name
+            new = None
+            for p, a in self.prog.bind_args(sn.call, sn.callee).items():
+                if isinstance(a, ast.Name):
+                    k = (id(sn.frame), a.id)
+                    if k in val:
+                        if new is None:
+                            new = dict(val)
+                        new[(id(sn.cframe), p)] = val[k]
+            if new is not None:
+                return new
         if sn.kind == 'out' and sn.cn is not None and sn.cn.kind == 'stmt' \
                 and isinstance(sn.cn.ast, ast.Assign):
             a = sn.cn.ast
@@ -386,12 +403,25 @@ class Super:
         entered but not left.  Returns a dict node id -> predecessor id (of
         the first state that reached the node); use ``witness`` for paths."""
         seen = Reach()
-        st0 = tuple(sorted((init or {}).items()))
         todo = []
-        for s_ in starts:
+        starts = list(starts)
+        if init is None and starts != [self.entry] and \
+                not getattr(self, '_computing_entry_states', False):
+            # a search that starts in the middle of the graph starts with
+            # every valuation of the boolean locals with which its start
+            # nodes can be reached from the entry
+            es = self.entry_states()
+            seeds = []
+            for s_ in starts:
+                vals = es.get(s_)
+                seeds += [(s_, st) for st in (vals or [()])]
+        else:
+            st0 = tuple(sorted((init or {}).items()))
+            seeds = [(s_, st0) for s_ in starts]
+        for key in seeds:
+            s_ = key[0]
             if avoid is not None and avoid(self.nodes[s_]):
                 continue
-            key = (s_, st0)
             if key in seen.states:
                 continue
             seen.states[key] = None
@@ -423,6 +453,22 @@ class Super:
                     seen.first[d] = k2
                 todo.append(k2)
         return seen
+
+    def entry_states(self):
+        """node id -> set of flag valuations with which the node is
+        reachable from the entry (unfiltered search, computed once)."""
+        es = getattr(self, '_entry_states', None)
+        if es is None:
+            self._computing_entry_states = True
+            try:
+                r = self.reach([self.entry])
+            finally:
+                self._computing_entry_states = False
+            es = {}
+            for (n, st) in r.states:
+                es.setdefault(n, set()).add(st)
+            self._entry_states = es
+        return es
 
     def witness(self, seen, target):
         if isinstance(seen, Reach) and target in seen.first:
